@@ -255,10 +255,16 @@ def check_formula(rows: list[tuple[dict[str, Any], Any, Leaf]], known: list[str]
     import itertools
     dom = domain or (lambda k: (True, False))
     bad: list[dict[str, Any]] = []
+    # atoms outside ``known`` are tolerated when the result never depends on them (e.g. guards of dead stores)
+    proj: dict[tuple, set] = {}
+    for a, v, lf in rows:
+        got = outcome(lf) if outcome is not None else (bool(v) if lf.outcome == "return" else lf.outcome)
+        proj.setdefault(tuple(sorted((k, x) for k, x in a.items() if k in known)), set()).add(got)
     for a, v, lf in rows:
         unknown = [k for k in a if k not in known]
-        if unknown:
+        if unknown and len(proj[tuple(sorted((k, x) for k, x in a.items() if k in known))]) > 1:
             raise Unsupported(f"decides on {unknown}", where)
+        a = {k: x for k, x in a.items() if k in known}
         got = outcome(lf) if outcome is not None else (bool(v) if lf.outcome == "return" else lf.outcome)
         free = [k for k in known if k not in a]
         vals = set()
